@@ -37,6 +37,8 @@ func c35Engine() *Engine {
 			think: []time.Duration{0, 300 * time.Millisecond, 2 * time.Second, 4 * time.Minute}[r.Intn(4)]}
 		if !bg {
 			c.writers, c.readers = 1, 0
+		} else if r.Pct(60) {
+			c.shutAtYield = 1 + r.Intn([]int{40, 300, 1500, 6000}[r.Intn(4)])
 		}
 		if tier == "thorough" {
 			c.opsPerClient += 6
@@ -52,7 +54,46 @@ func c35Engine() *Engine {
 			mode = "no-bgsync"
 		}
 		res.AddDistinct(fmt.Sprintf("%s/%x/%d/%d", mode, sr.sim.Sched, sr.sim.Preempt, len(sr.ops)))
+		// Did a client request write to the WAL itself after Shutdown had been
+		// requested? The WAL writer announces its exit through the unsynchronised
+		// haveWALWriter before its last flush; a request still in flight then flushes
+		// inline, concurrently with the writer's final flush and checkpoint and with
+		// other such requests. Everything that goes wrong in such a run (interleaved
+		// WAL records, transactions no checkpoint covers, Shutdown waiting for ever
+		// on commands nobody will flush, sends on the closed trigger channel) has
+		// that one known cause, so the run carries a tag.
+		inlineTag := ""
+		{
+			reqAt := -1
+			for i, o := range sr.log {
+				if o.Kind == simos.OpMarker && o.Note == "shutdown-requested" {
+					reqAt = i
+				}
+			}
+			if reqAt >= 0 && bg {
+				for _, e := range decodeWalEvents(sr.log) {
+					if e.i > reqAt && strings.HasPrefix(sr.sim.TaskName(sr.log[e.i].Task), "client") {
+						inlineTag = "|request-flushed-inline-during-shutdown"
+						break
+					}
+				}
+			}
+		}
+		if bg && inlineTag == "" {
+			// ... or died trying: the inline flush of a request panics when it finds
+			// the WAL status unreadable under the writer's concurrent final flush
+			// (shared file offset)
+			for _, op := range sr.ops {
+				if ae, ok := op.err.(*APIError); ok && ae.Panic && op.kind == "write" && strings.Contains(ae.Stack, "FlushToWAL") && strings.Contains(ae.Stack, "RequestFlush") {
+					inlineTag = "|request-flushed-inline-during-shutdown"
+				}
+			}
+		}
+		if inlineTag != "" {
+			res.Count("runs-with-inline-flush-during-shutdown", 1)
+		}
 		mk := func(class, sig, detail string) {
+			sig += inlineTag
 			res.AddViolation(&Violation{Prop: "C35", Class: class, Sig: "C35|" + mode + "|" + sig, Detail: detail, Seed: seed,
 				Replay: map[string]interface{}{"engine": "sched-shutdown", "history": describeHistory(sr)}})
 		}
@@ -119,7 +160,7 @@ func c35Engine() *Engine {
 				}
 			}
 			switch {
-			case lastCk < 0 && len(who) > 0:
+			case lastCk < 0 && len(who) > 0 && !bg:
 				unchecked = "no-checkpoint-at-all"
 			case who["request"] && who["wal-writer"]:
 				unchecked = "unchecked-tg-by-request+wal-writer"
